@@ -46,14 +46,20 @@ func (d *sdoc) kids(p int) []int {
 	return out
 }
 
+var richDocs = false // set by the replayer for the "rich values" rendering
+
+func xmlEsc(s string) string {
+	return strings.NewReplacer("&", "&amp;", "<", "&lt;", `"`, "&quot;").Replace(s)
+}
+
 func (d *sdoc) xml(i int, sb *strings.Builder) {
 	if d.Kind[i-1] == "T" {
-		sb.WriteString(d.Nm[i-1])
+		sb.WriteString(xmlEsc(valOf(d.Nm[i-1], richDocs)))
 		return
 	}
 	sb.WriteString("<" + d.Nm[i-1])
 	if d.At[i-1] != "" {
-		sb.WriteString(` k="` + d.At[i-1] + `"`)
+		sb.WriteString(` k="` + xmlEsc(valOf(d.At[i-1], richDocs)) + `"`)
 	}
 	ks := d.kids(i)
 	if len(ks) == 0 {
@@ -78,12 +84,12 @@ func (d *sdoc) renderXML() string {
 // enc: canonical pre-order encoding of the subtree of abstract node i: "E:name[@k=v]" / "T:text" with depth
 func (d *sdoc) enc(i, depth int, out *[]string) {
 	if d.Kind[i-1] == "T" {
-		*out = append(*out, fmt.Sprintf("%d T %s", depth, d.Nm[i-1]))
+		*out = append(*out, fmt.Sprintf("%d T %s", depth, valOf(d.Nm[i-1], richDocs)))
 		return
 	}
 	a := ""
 	if d.At[i-1] != "" {
-		a = " @k=" + d.At[i-1]
+		a = " @k=" + valOf(d.At[i-1], richDocs)
 	}
 	*out = append(*out, fmt.Sprintf("%d E %s%s", depth, d.Nm[i-1], a))
 	for _, k := range d.kids(i) {
@@ -133,7 +139,7 @@ func (d *sdoc) jsonOK(i int) bool {
 func (d *sdoc) jsonVal(i int, sb *strings.Builder) {
 	ks := d.kids(i)
 	if len(ks) == 1 && d.Kind[ks[0]-1] == "T" {
-		b, _ := json.Marshal(d.Nm[ks[0]-1])
+		b, _ := json.Marshal(valOf(d.Nm[ks[0]-1], richDocs))
 		sb.Write(b)
 		return
 	}
@@ -156,7 +162,29 @@ func (d *sdoc) renderJSON() string {
 	return sb.String()
 }
 
-func (x *sxpath) render() string {
+// rich renderings of the abstract text / attribute values: variant 1 puts quote characters into the values, so that the
+// xpath literals have to be written with the other quote character
+var richVal = map[string]string{"1": "o'b", "2": `q"t`, "x": "x y"}
+
+func valOf(v string, rich bool) string {
+	if rich {
+		if r, ok := richVal[v]; ok {
+			return r
+		}
+	}
+	return v
+}
+
+func xpathLit(v string) string {
+	if strings.Contains(v, "'") {
+		return `"` + v + `"`
+	}
+	return "'" + v + "'"
+}
+
+func (x *sxpath) render() string { return x.renderV(false) }
+
+func (x *sxpath) renderV(rich bool) string {
 	var sb strings.Builder
 	for _, s := range x.Steps {
 		if s.Axis == "child" {
@@ -167,11 +195,11 @@ func (x *sxpath) render() string {
 	}
 	switch x.Pk {
 	case "child=":
-		sb.WriteString("[" + x.Pn + "='" + x.Pv + "']")
+		sb.WriteString("[" + x.Pn + "=" + xpathLit(valOf(x.Pv, rich)) + "]")
 	case "self=":
-		sb.WriteString("[.='" + x.Pv + "']")
+		sb.WriteString("[.=" + xpathLit(valOf(x.Pv, rich)) + "]")
 	case "attr=":
-		sb.WriteString("[@k='" + x.Pv + "']")
+		sb.WriteString("[@k=" + xpathLit(valOf(x.Pv, rich)) + "]")
 	case "child":
 		sb.WriteString("[" + x.Pn + "]")
 	}
@@ -248,62 +276,70 @@ func c04Replay(args []string) int {
 		if e := json.Unmarshal(line, &c); e != nil {
 			return e
 		}
-		xmlText, xp := c.D.renderXML(), c.X.render()
-		var exp, expSel [][]string
-		for _, i := range c.Out {
-			var enc []string
-			c.D.enc(i, 0, &enc)
-			exp = append(exp, enc)
-		}
-		for _, i := range c.Sel {
-			var enc []string
-			c.D.enc(i, 0, &enc)
-			expSel = append(expSel, enc)
-		}
-		// binding of xpath-lite: the real engine on the fully loaded document must select what the spec selects
-		whole, e := wholeDocSelect(xmlText, xp)
-		if e != nil || !sameEnc(whole, expSel) {
-			specMismatch++
-			if specMismatch < 5 {
-				emit(M{"kind": "spec_mismatch", "xml": xmlText, "xpath": xp, "spec": expSel, "engine": whole, "err": fmt.Sprint(e)})
+		for _, rich := range []bool{false, true} {
+			richDocs = rich
+			xmlText, xp := c.D.renderXML(), c.X.renderV(rich)
+			var exp, expSel [][]string
+			for _, i := range c.Out {
+				var enc []string
+				c.D.enc(i, 0, &enc)
+				exp = append(exp, enc)
 			}
-			return nil
-		}
-		texts := map[string]string{"xml": xmlText}
-		if c.D.jsonOK(0) {
-			texts["json"] = c.D.renderJSON()
-		}
-		for _, format := range []string{"xml", "json"} {
-			text, ok := texts[format]
-			if !ok {
+			for _, i := range c.Sel {
+				var enc []string
+				c.D.enc(i, 0, &enc)
+				expSel = append(expSel, enc)
+			}
+			// binding of xpath-lite: the real engine on the fully loaded document must select what the spec selects
+			whole, e := wholeDocSelect(xmlText, xp)
+			if e != nil || !sameEnc(whole, expSel) {
+				specMismatch++
+				if specMismatch < 5 {
+					emit(M{"kind": "spec_mismatch", "xml": xmlText, "xpath": xp, "spec": expSel, "engine": whole, "err": fmt.Sprint(e)})
+				}
 				continue
 			}
-			var got [][]string
-			var rerr error
-			pv, _ := guarded(0, func() {
-				var sr streamReader
-				var e error
-				if format == "xml" {
-					sr, e = idr.NewXMLStreamReader(strings.NewReader(text), xp)
-				} else {
-					sr, e = idr.NewJSONStreamReader(strings.NewReader(text), xp)
+			texts := map[string]string{"xml": xmlText}
+			if c.D.jsonOK(0) {
+				texts["json"] = c.D.renderJSON()
+			}
+			for _, format := range []string{"xml", "json"} {
+				text, ok := texts[format]
+				if !ok {
+					continue
 				}
-				if e != nil {
-					rerr = e
-					return
-				}
-				got, rerr = streamAll(sr, 4*c.D.N+4)
-			})
-			sum.eval(c.Nt, M{"x": text, "p": xp})
-			if pv != "" || rerr != nil || !sameEnc(got, exp) {
-				nviol++
-				if nviol <= 50 {
-					violation("C04", format+"-stream-mismatch", fmt.Sprintf("%s %q xpath %q: expected %v, streamed %v %v %s", format, text, xp, exp, got, rerr, pv),
-						M{"format": format, "doc": text, "xpath": xp, "expected": exp, "actual": got, "whole_document_selection": whole, "case": c})
+				var got [][]string
+				var rerr error
+				pv, _ := guarded(0, func() {
+					var sr streamReader
+					var e error
+					sxp := xp
+					if rich {
+						sxp = " " + xp + " \n" // the readers trim the target xpath
+					}
+					if format == "xml" {
+						sr, e = idr.NewXMLStreamReader(strings.NewReader(text), sxp)
+					} else {
+						sr, e = idr.NewJSONStreamReader(strings.NewReader(text), sxp)
+					}
+					if e != nil {
+						rerr = e
+						return
+					}
+					got, rerr = streamAll(sr, 4*c.D.N+4)
+				})
+				sum.eval(c.Nt, M{"x": text, "p": xp})
+				if pv != "" || rerr != nil || !sameEnc(got, exp) {
+					nviol++
+					if nviol <= 50 {
+						violation("C04", format+"-stream-mismatch", fmt.Sprintf("%s %q xpath %q: expected %v, streamed %v %v %s", format, text, xp, exp, got, rerr, pv),
+							M{"format": format, "doc": text, "xpath": xp, "expected": exp, "actual": got, "whole_document_selection": whole, "case": c})
+					}
 				}
 			}
+			sum.sample(M{"xml": xmlText, "xpath": xp, "expected": exp})
 		}
-		sum.sample(M{"xml": xmlText, "xpath": xp, "expected": exp})
+		richDocs = false
 		return nil
 	})
 	if err != nil {
@@ -473,3 +509,48 @@ func c04Drive(args []string) int {
 func init() {
 	cmds["c04-drive"] = c04Drive
 }
+
+// ---- removeLastFilterInXPath against XPathSplit.tla (through the verif accessor)
+
+func c04Split(args []string) int {
+	sum := newSummary()
+	nviol := 0
+	err := readLines(args[0], func(line []byte) error {
+		var c struct {
+			S   []string `json:"s"`
+			Out []string `json:"out"`
+			Wf  bool     `json:"wf"`
+		}
+		if e := json.Unmarshal(line, &c); e != nil {
+			return e
+		}
+		// two renderings of the "other character" class: ASCII and a multi-byte rune
+		for vi, other := range []string{"a", "é"} {
+			r := strings.NewReplacer("a", other)
+			in, exp := r.Replace(strings.Join(c.S, "")), r.Replace(strings.Join(c.Out, ""))
+			var got string
+			pv, _ := guarded(0, func() { got = idr.VerifRemoveLastFilter(in) })
+			sum.eval(c.Wf && strings.Contains(in, "]"), M{"s": in, "v": vi})
+			if pv != "" || got != exp {
+				nviol++
+				if nviol <= 20 {
+					key := "split-filter"
+					if !c.Wf {
+						key = "split-filter-illformed"
+					}
+					violation("C04", key, fmt.Sprintf("removeLastFilterInXPath(%q) = %q, specified %q %s", in, got, exp, pv), M{"xpath": in, "got": got, "expected": exp, "wellformed": c.Wf})
+				}
+			}
+		}
+		return nil
+	})
+	if err != nil {
+		fmt.Println("error:", err)
+		return 3
+	}
+	sum.inc("mismatches", nviol)
+	sum.done()
+	return 0
+}
+
+func init() { cmds["c04-split"] = c04Split }
